@@ -221,7 +221,7 @@ func runC09(c *Ctx) {
 	}
 	// first documents from BlockSem.tla: for these TLC has established at model level that a
 	// document whose blocks are closed renders independently of what follows (invariant ConcatLaw)
-	for bi, b := range []bsConfig{{"small", 3, true, 0}, {"html", 2, true, 0}} {
+	for bi, b := range []bsConfig{{"small", 3, true, 0}, {"html", 2, true, 0}, {"fencetabs", 3, true, 0}} {
 		n := 0
 		r := RunTLC(TLCOpts{Module: "BlockSem", Cfg: "gen.cfg", CfgText: bsCfg(b.alpha, b.lines, false, true), Workers: 8, Timeout: 60 * time.Minute, OnJSON: func(raw []byte) {
 			var d struct {
